@@ -1088,9 +1088,10 @@ def is_blocking(node: ast.AST, parent_type: ast.AST = None) -> bool:
             if not test_value:
                 return False
 
+            if _has_break(node.body):
+                return False
+
             for child in node.body:
-                if isinstance(child, ast.Break):
-                    return False
                 if is_blocking(child, type(node)):
                     return True
 
